@@ -26,6 +26,10 @@ type Violation struct {
 	// the implementation still conforms to the model, so the path need not be pruned
 	// when the violation is a known finding.
 	ReadOnly bool `json:"read_only,omitempty"`
+	// Once marks a violation that the same process cannot observe twice (a data race
+	// report: the detector prints each racing stack pair only once), so it is not
+	// re-executed for stability.
+	Once bool `json:"once,omitempty"`
 }
 
 func (v Violation) Key() string { return v.Prop + "|" + v.Assert + "|" + v.Witness }
@@ -203,6 +207,9 @@ type Unit interface {
 	// SplitRoot says whether the root should be split across workers.
 	SplitRoot() bool
 }
+
+// RaceUnit is implemented by units that must run in the -race build.
+type RaceUnit interface{ UseRace() bool }
 
 // Check is a property check: a list of units per tier plus evidence metadata.
 type Check struct {
